@@ -31,6 +31,12 @@ const SNIPPETS = [
   ['function f$() { return <ul>{items.map((i) => <li key={i}>{i}</li>)}</ul>; }', []],
   ['const a$ = <div nativeOnly={v} nativeOnClick={h} online="1" once onward={w} />;', []],
   ['const a$ = <Comp ongoing="x" nativeOnce={v} one={1} />;', []],
+  ['const a$ = [<Comp />, <b />].map((v) => v);', []],
+  ['const a$ = mount(<Comp a="1" />).then(cb);', []],
+  ['const a$ = (() => <div>{v}</div>)();', []],
+  ['const a$ = (<Comp />, fn)(<i />)(<b>t</b>);', []],
+  ['const a$ = <lib.UiBox>{v}<i /></lib.UiBox>;', []],
+  ['const a$ = <ui.xPanel a="1">k{v}</ui.xPanel>;', []],
   ['const a$ = <UIButton kind="k"><b />text</UIButton>;', []],
   ['const a$ = <UIList>{child}</UIList>;', ['soleIdent']],
   ['const a$ = <X-Panel a="1">k</X-Panel>;', ['patternCI']],
@@ -69,7 +75,7 @@ function randomBase(rng) {
   const o = {};
   for (const k of Object.keys(ON)) o[k] = rng.bool() ? ON[k] : OFF[k];
   // the pattern list that counts as "on" for this base: one pattern, or two where the first carries an inline flag
-  o.__patternsOn = rng.bool() ? ['^x-'] : ['(?i)^x-', '^Ui'];
+  o.__patternsOn = rng.pick([['^x-'], ['(?i)^x-', '^Ui'], ['^x']]);
   if (o.customElementPatterns.length) o.customElementPatterns = o.__patternsOn;
   o.optimize = rng.bool();
   if (rng.bool(0.2)) o.pragma = 'h';
